@@ -24,7 +24,9 @@ KINDS_INSIDE = ["typedef of a base type", "enum", "struct", "exception", "union"
                 "const with an integer value", "const with a plain double-quoted string value",
                 "service (no extends) with methods: oneway or not, void or base/container return type, arguments, throws"]
 STYLES_INSIDE = [
-    "blanks (space, tab, CR) at every '_' position, blanks and line breaks at every '__' position, any length incl. none",
+    "blanks (space, tab, CR) at every '_' position, blanks and line breaks at every '__' position, any length incl. none "
+    "(at least one after required / optional / oneway / void and after a base-type keyword that stands before a name: "
+    "keywords end at a word boundary)",
     "field ids: any 64-bit integer, negative included", "field modifiers: required / optional / none (default)",
     "field types: the eight base types, list<T>, set<T>, map<K,V>, nested to any depth, blanks inside the brackets",
     "field separators: ',' / ';' / none, with any blanks and line breaks around them",
@@ -120,13 +122,11 @@ class FragGen:
         return (k, self.blanks(0.7), self.ty(depth + 1), self.blanks(0.5))
 
     def before_name(self, ty):
-        """a base type written right against the following name ("i32count") is, to this grammar, the type
-        and the name; the theorem covers it, a writer rarely means it: keep it rare"""
+        """a base type written right against the following name ("i32count") is one identifier (since the
+        repair of C10-F8a): a base-type keyword before a name is followed by at least one blank"""
         if ty[0] == "base" and ty[-1] == b"":
-            if self.rng.random() < 0.9:
-                return ty[:-1] + (self.blanks1(),)
-            self.features.add("name_glued_to_base_type")
-        elif ty[0] != "base" and ty[-1] == b"":
+            return ty[:-1] + (self.blanks1(),)
+        if ty[0] != "base" and ty[-1] == b"":
             self.features.add("name_glued_to_type_bracket")
         return ty
 
@@ -141,10 +141,8 @@ class FragGen:
         rng = self.rng
         m = rng.choice(["default", "default", "required", "optional"])
         self.features.add("mod_" + m)
-        # after the modifier keyword a blank is what a writer means; the theorem also covers none
-        mod = ("default",) if m == "default" else (m, self.blanks1() if rng.random() < 0.9 else b"")
-        if m != "default" and mod[1] == b"":
-            self.features.add("mod_glued_to_type")
+        # the modifier keyword ends at a word boundary (since the repair of C10-F8b): at least one blank follows
+        mod = ("default",) if m == "default" else (m, self.blanks1())
         fid = self.int64()
         if fid < 0:
             self.features.add("negative_field_id")
@@ -201,19 +199,19 @@ class FragGen:
     def function(self):
         rng = self.rng
         if rng.random() < 0.3:
-            w = self.wsnl(0.0) if rng.random() < 0.93 else b""
+            w = self.wsnl(0.0)        # oneway ends at a word boundary (C10-F8c repaired)
             ow = ("oneway", w)
-            self.features.add("method_oneway" if w else "method_oneway_glued")
+            self.features.add("method_oneway")
         else:
             ow = ("none",)
         if rng.random() < 0.45:
-            w = self.wsnl(0.0) if rng.random() < 0.93 else b""
+            w = self.wsnl(0.0)        # void ends at a word boundary (C10-F8d repaired)
             ret = ("void", w)
-            self.features.add("method_void" if w else "method_void_glued_to_name")
+            self.features.add("method_void")
         else:
             ty = self.ty()
             w = self.nl_led(0.6)
-            if ty[0] == "base" and ty[-1] == b"" and w == b"" and rng.random() < 0.9:
+            if ty[0] == "base" and ty[-1] == b"" and w == b"":
                 ty = ty[:-1] + (self.blanks1(),)
             ret = ("type", ty, w)
             self.features.add("method_returns_" + ("base" if ty[0] == "base" else "container"))
@@ -275,8 +273,9 @@ class FragGen:
         return ("const", {"g1": self.kw_gap(), "ty": ty, "name": self.ident(), "g2": self.blanks(0.3),
                           "g3": self.blanks(0.3), "v": v, "g4": self.blanks(0.7), "w": self.wsnl(0.5)})
 
-    def hazard_enum_overflow(self):
-        """known finding C10-F22: the implicit value after the largest 64-bit integer (Go int wrap-around)"""
+    def enum_overflow(self):
+        """outside the fragment: a value without a number after the largest 64-bit integer (Thrift's previous + 1
+        does not exist; the Enum action must report it -- it numbered it -2^63 before the repair of C10-F22)"""
         vals = [self.enum_value(False) for _ in range(self.rng.randrange(0, 3))]
         keep_in_range(vals, self.rng)
         top = {"name": self.ident(), "tail": ("valsep", self.blanks(0.5), self.blanks(0.5), 2 ** 63 - 1, self.blanks(0.7),
@@ -293,7 +292,7 @@ class FragGen:
 
 
 def keep_in_range(values, rng):
-    """no implicit enum value may follow 2^63 - 1 (that corner is the hazard case, known finding C10-F22)"""
+    """no implicit enum value may follow 2^63 - 1 (that corner is an error, see FragGen.enum_overflow)"""
     while True:
         prev, last_explicit, bad = -1, None, None
         for i, v in enumerate(values):
